@@ -9,6 +9,7 @@ V: a matrix of deterministic runs (types 1, 2, 5; two keys; two nonce/challenge
    request, equal (key, nonce, challenge, salt) => equal token. The three Rust
    interop vectors are reproduced byte for byte (requests, batch request, tokens)."""
 import vlib
+from checks import ages_common as ag
 from checks import issuance_common as ic
 
 
@@ -19,7 +20,9 @@ def run(ctx):
         ctx.model_check("MC_Issuance", ctx.pick("MC_Issuance_t%d.cfg" % t, "MC_Issuance_t%d_thorough.cfg" % t))
     n, cases, kinds = ic.run(ctx, "C11", ["det"], shards=2)
     rows = sum(len(c.get("rows", [])) for c in cases)
+    an, acases = ag.run(ctx, ['t1det'])   # Ages.tla: every schedule of phases on one long-lived object, each phase scaled to n operations
     return ctx.finish({
+        **ag.coverage(an, acases),
         "traces_validated_against_impl": n,
         "evaluations": rows + 3,
         "distinct_nontrivial": len({vlib.json.dumps(r, sort_keys=True) for c in cases for r in c.get("rows", [])}) + 3,
@@ -34,4 +37,6 @@ def run(ctx):
 
 
 def replay(ctx, path):
+    if vlib.json.load(open(path)).get("family") == "ages":
+        return ag.replay(ctx, path)
     return ctx.replay_case(path, "issuance", "Trace_Issuance", cfg="Trace_Issuance_C11.cfg")
